@@ -8,7 +8,11 @@
 (*                                                                         *)
 (* A circuit is abstracted to  [s: total shots (0 = analytic),             *)
 (*   g: number of groups of mutually commuting measurements,               *)
-(*   b: parameter-broadcast batch size (0 = none), n: number of gates].    *)
+(*   b: parameter-broadcast batch size (0 = none), n: number of gates,     *)
+(*   t: number of trainable parameters (0 = nothing to differentiate),     *)
+(*   m: the measurement processes of the circuit as a sorted sequence of   *)
+(*      codes kind*8 + shape (kind: 1 expval, 2 var, 3 probs, 4 sample,    *)
+(*      5 counts; shape: 0 no observable, 1 X, 2 Y, 3 Z, 4 product)].      *)
 (* "executions" = circuits that quantum hardware would have to run         *)
 (*   = g * max(b,1);  "shots" = s * executions (docs example: 50 shots,    *)
 (*   two non-commuting expectation values -> 100).                         *)
@@ -16,7 +20,15 @@
 (* State: active, persistent, tot (running sums), hist (per keyword, in    *)
 (* order), latest; ghost `ledger`: what the device actually performed      *)
 (* while the tracker was active since the last reset (the independent      *)
-(* count).  One action per public call: Enter / Exit (context manager),    *)
+(* count).  The resources of a circuit are Res(c) = <<n>> \o m: the entry  *)
+(* recorded for a circuit must describe THAT circuit (its gates and its    *)
+(* measurement processes), also when a neighbour in the same batch has the *)
+(* same gates.  "derivatives" / "jvps" / "vjps" are, per the documentation,*)
+(* the number of circuits SUBMITTED to the entry point: t does not enter   *)
+(* any count (a circuit without trainable parameters is still submitted    *)
+(* and the device still answers for it).  `latest` holds for every keyword *)
+(* <<>> (not in the latest update) or <<value>>.                           *)
+(* One action per public call: Enter / Exit (context manager),    *)
 (* On / Off (tracker.active = ...), Reset, Call(kind, batch) for each of   *)
 (* the seven device entry points.                                          *)
 (***************************************************************************)
@@ -40,23 +52,24 @@ Kinds == {"execute", "compute_derivatives", "compute_jvp", "compute_vjp"} \cup E
 
 Zero == [k \in NumKeys |-> 0]
 EmptyH == [k \in AllKeys |-> <<>>]
-NoLatest == [k \in AllKeys |-> -1]
+NoLatest == [k \in AllKeys |-> <<>>]
 
 Execs(c) == c.g * (IF c.b > 0 THEN c.b ELSE 1)
 ShotsOf(c) == c.s * Execs(c)
+Res(c) == <<c.n>> \o c.m
 
 \* ------------------------------------------------------------ Tracker.update, and what each entry point reports
 Upd(st, kv) ==
   [tot    |-> [k \in NumKeys |-> IF k \in DOMAIN kv THEN st.tot[k] + kv[k] ELSE st.tot[k]],
    hist   |-> [k \in AllKeys |-> IF k \in DOMAIN kv THEN Append(st.hist[k], kv[k]) ELSE st.hist[k]],
-   latest |-> [k \in AllKeys |-> IF k \in DOMAIN kv THEN kv[k] ELSE -1]]
+   latest |-> [k \in AllKeys |-> IF k \in DOMAIN kv THEN <<kv[k]>> ELSE <<>>]]
 RECURSIVE ApplyAll(_, _)
 ApplyAll(st, us) == IF us = <<>> THEN st ELSE ApplyAll(Upd(st, Head(us)), Tail(us))
 
 ExecKV(c) == IF c.s > 0
-             THEN [simulations |-> 1, executions |-> Execs(c), results |-> 1, shots |-> ShotsOf(c), resources |-> c.n]
-             ELSE [simulations |-> 1, executions |-> Execs(c), results |-> 1, resources |-> c.n]
-ResKV(B) == [i \in 1..Len(B) |-> [resources |-> B[i].n]]
+             THEN [simulations |-> 1, executions |-> Execs(c), results |-> 1, shots |-> ShotsOf(c), resources |-> Res(c)]
+             ELSE [simulations |-> 1, executions |-> Execs(c), results |-> 1, resources |-> Res(c)]
+ResKV(B) == [i \in 1..Len(B) |-> [resources |-> Res(B[i])]]
 Updates(kind, B) ==
   CASE kind = "execute"                         -> <<[batches |-> 1]>> \o [i \in 1..Len(B) |-> ExecKV(B[i])]
     [] kind = "compute_derivatives"             -> <<[derivative_batches |-> 1, derivatives |-> Len(B)]>>
@@ -118,13 +131,13 @@ LedgerTotals ==
   /\ tot["vjps"] = Len(Circs({"compute_vjp", "execute_and_compute_vjp"}))
 \* history lists each one in order
 HistoryInOrder ==
-  /\ LET R == Circs({"execute"} \cup ExecAnd) IN hist["resources"] = [i \in 1..Len(R) |-> R[i].n]
+  /\ LET R == Circs({"execute"} \cup ExecAnd) IN hist["resources"] = [i \in 1..Len(R) |-> Res(R[i])]
   /\ hist["executions"] = ExecHist(Of({"execute"} \cup ExecAnd))
   /\ LET F == SelectSeq(Executed, LAMBDA c : c.s > 0) IN hist["shots"] = [i \in 1..Len(F) |-> ShotsOf(F[i])]
   /\ Len(hist["results"]) = Len(Executed) /\ Len(hist["batches"]) = Len(Of({"execute"}))
   /\ LET D == Of({"compute_derivatives", "execute_and_compute_derivatives"}) IN hist["derivatives"] = [i \in 1..Len(D) |-> Len(D[i].batch)]
 TotalsAreSums == \A k \in NumKeys : tot[k] = SumOf(hist[k])
-LatestOK(la, h) == \A k \in AllKeys : la[k] # -1 => (h[k] # <<>> /\ la[k] = h[k][Len(h[k])])
+LatestOK(la, h) == \A k \in AllKeys : la[k] # <<>> => (Len(la[k]) = 1 /\ h[k] # <<>> /\ la[k][1] = h[k][Len(h[k])])
 LatestConsistent == LatestOK(latest, hist)
 FreshAfterEnter == (~persistent /\ steps # <<>> /\ steps[Len(steps)].a = "enter") => (tot = Zero /\ hist = EmptyH /\ ledger = <<>>)
 \* state abstraction for model checking without the history of steps
